@@ -232,7 +232,14 @@ func checkFaithful(ts tagStruct) error {
 
 func TestFaithful(t *testing.T) {
 	kit.Rec.Rule(rule)
-	rapid.Check(t, func(t *rapid.T) {
+	rapid.Check(t, propFaithful)
+}
+
+// FuzzFaithful drives the structured round trip with coverage-guided native fuzzing (thorough tier).
+func FuzzFaithful(f *testing.F) { f.Fuzz(rapid.MakeFuzz(propFaithful)) }
+
+func propFaithful(t *rapid.T) {
+	{
 		ts := genTag(t)
 		if err := checkFaithful(ts); err != nil {
 			t.Fatalf("C19: %v", err)
@@ -252,7 +259,7 @@ func TestFaithful(t *testing.T) {
 			seen[canon(a.Name)] = true
 		}
 		kit.Rec.Case(ts.render(), len(ts.Args) >= 2 || ts.Rich, labels...)
-	})
+	}
 }
 
 // ---- end to end ----------------------------------------------------------------
@@ -446,7 +453,6 @@ var seeds = []string{
 	",=", ",=x", ",==", ",,", ",", "=,", "a,=b,c", "[,", "],", "(,),", ",a=[", ",a=]", ",é=1", ",世", ",\xff=1", ",required=false ,", ",Required=false", ",required=[false]",
 	",note=[legacy,required=false,see docs]", ",required= false", ",required=false true", ",required", ",required=", "x,required=false,required=true",
 }
-
 
 // TestEndToEndPropEmptyKey: the prop shorthand with an EMPTY value part - the arguments still start at the first
 // top-level comma: prop:",required=false" is optional.
